@@ -149,6 +149,18 @@ def validate(rep, exe, plans, prop, judge=True, expand=True, excuse=None):
             xreqs.append("expandok " + " ".join([sexpr(g["gid"]), sexpr(g["idents"]), sexpr(g["payloads"]), sexpr(fam["main"])]
                                                  + [sexpr(h) for h, _ in fam["helpers"]] + ["--"] + [sexpr(x) for x in g["items"]]))
     xres = C.run_lean(xreqs) if xreqs else [None] * len(where)
+    # inherent mode: the full-strength checker `expandOKInhCore_inh` (subject of C17_expandOK_of_expand_inherent) on the REAL helper trait,
+    # helper impls and main impl — `expandOKCore` only looks at generics/self type/safety there
+    ireqs, iwhere = [], []
+    if expand:
+        for (pi, fi) in where:
+            d = dumps[pi]
+            g, fam = d.groups[fi], d.families[fi]
+            if g["gid"][3][0][1] == "None" and fam["main"][1] == "Some" and fam["helper"][1] == "Some":
+                ireqs.append("expandokinh " + " ".join([sexpr(g["gid"]), sexpr(g["idents"]), sexpr(g["payloads"]), sexpr(fam["main"]), sexpr(fam["helper"][3][0])]
+                                                       + [sexpr(h) for h, _ in fam["helpers"]] + ["--"] + [sexpr(x) for x in g["items"]]))
+                iwhere.append((pi, fi))
+    ires = dict(zip(iwhere, C.run_lean(ireqs))) if ireqs else {}
     for (pi, fi), resp, xresp in zip(where, lres, xres):
         plan, d = plans[pi], dumps[pi]
         g, fam = d.groups[fi], d.families[fi]
@@ -192,6 +204,14 @@ def validate(rep, exe, plans, prop, judge=True, expand=True, excuse=None):
                                               "python": py_problems[:4], "invocation": plan.invocation_text()[:3000], "family": fi})
             else:
                 rep.disagreements.append({"what": "expandok request rejected by the model", "resp": str(xresp)[:200]})
+            if (pi, fi) in ires:
+                iv = parse_sexpr(ires[(pi, fi)])
+                if iv and iv[0] == "expandokinh" and iv[1] in ("0", "1"):
+                    rep.count("shape:expandOKInh(lean)=" + iv[1])
+                    if iv[1] == "0":
+                        problems.append("inherent mode: the real helper trait / helper impls / main impl are not the abstract program (expandOKInhCore_inh rejects)")
+                else:
+                    rep.disagreements.append({"what": "expandokinh request rejected by the model", "resp": str(ires[(pi, fi)])[:200]})
         if problems and judge and excuse is not None:
             fid = excuse(plan, problems)
             if fid:
